@@ -48,6 +48,12 @@ type Sched struct {
 	IsKey func(op *hookfs.Op) bool
 	// OnGrant is called for every granted step (bookkeeping for IsKey).
 	OnGrant func(pid int, op *hookfs.Op)
+	// WindowKinds / WindowDelay bias random schedules towards races inside short unlocked windows: a process
+	// parked at a step whose kind is in WindowKinds is passed over (while others are enabled) up to
+	// WindowDelay times, with probability 1/2 each time, so that the other processes run inside the window.
+	WindowKinds map[string]bool
+	WindowDelay int
+	delayed     map[*proc]int
 }
 
 func New() *Sched { return &Sched{byID: map[int]*proc{}, locks: map[uint64]*hookfs.File{}} }
@@ -186,6 +192,23 @@ func (s *Sched) Run(schedule []int, rnd *rand.Rand) error {
 		if pick == nil {
 			if rnd != nil {
 				pick = en[rnd.Intn(len(en))]
+				if len(en) > 1 && s.WindowKinds[pick.pending.Kind] {
+					if s.delayed == nil {
+						s.delayed = map[*proc]int{}
+					}
+					if s.delayed[pick] < s.WindowDelay && rnd.Intn(2) == 0 {
+						s.delayed[pick]++
+						var others []*proc
+						for _, q := range en {
+							if q != pick {
+								others = append(others, q)
+							}
+						}
+						pick = others[rnd.Intn(len(others))]
+					} else {
+						delete(s.delayed, pick)
+					}
+				}
 			} else {
 				pick = en[rr%len(en)]
 				rr++
